@@ -115,6 +115,9 @@ pub struct KnownFinding {
     /// The minimised program must contain an operation of this name (e.g. "SetGen").
     #[serde(default)]
     pub program_contains: Option<String>,
+    /// The failing execution must carry a marker starting with this text.
+    #[serde(default)]
+    pub marker: Option<String>,
     pub what: String,
 }
 
@@ -149,6 +152,11 @@ fn matches_known(k: &KnownFinding, rf: &ReplayFile) -> bool {
     }
     if let Some(sites) = &k.stale_sites_within {
         if rf.stale_sites.is_empty() || !rf.stale_sites.iter().all(|s| sites.contains(s)) {
+            return false;
+        }
+    }
+    if let Some(m) = &k.marker {
+        if !rf.markers.iter().any(|x| x.starts_with(m.as_str())) {
             return false;
         }
     }
